@@ -842,6 +842,23 @@ where
                 let mut owned = if into { self.tabs[t - 1].take() } else { None };
                 let pl = owned.as_ref().map(|m| m.hasher().pl).unwrap_or(0);
                 let mut kept: Vec<(K, V)> = vec![];
+                if ev.n == 2 {
+                    // a consumer that panics when it receives class k (the collection must still end up empty and usable)
+                    let r = if into {
+                        let m = owned.take().unwrap();
+                        catch_unwind(AssertUnwindSafe(|| pool.install(|| m.into_par_iter().for_each(|(kk, _)| if kk.class() == k { panic!("injected consumer panic") }))))
+                    } else {
+                        let m = self.tabs[t - 1].as_mut().unwrap();
+                        catch_unwind(AssertUnwindSafe(|| pool.install(|| m.par_drain().for_each(|(kk, _)| if kk.class() == k { panic!("injected consumer panic") }))))
+                    };
+                    if into {
+                        self.tabs[t - 1] = Some(HashMap::with_hasher_in(PlanBH { pl }, CheckingAlloc));
+                    }
+                    if let Err(p) = r {
+                        std::panic::resume_unwind(p);
+                    }
+                    return;
+                }
                 if ev.n == 0 {
                     kept = if into {
                         let m = owned.take().unwrap();
@@ -925,7 +942,9 @@ where
 }
 
 pub fn classify_panic(s: &str) -> String {
-    if s.contains("duplicate keys found") {
+    if s.contains("injected consumer panic") {
+        "consumer".into()
+    } else if s.contains("duplicate keys found") {
         "dup".into()
     } else if s.contains("capacity overflow") {
         "capov".into()
